@@ -70,6 +70,9 @@ type Op struct {
 	FailAt int `json:"fail_at,omitempty"`
 	// campaign: a request of this count arrives between the successful campaign and Initialize
 	Mid uint32 `json:"mid,omitempty"`
+	// race: tasks are also parked right AFTER every etcd RPC returned (interleavings between an RPC's
+	// completion and the caller's next in-memory action)
+	After bool `json:"after,omitempty"`
 }
 
 // Case is a generated history.
@@ -236,6 +239,7 @@ type world struct {
 	grants       []*grant
 	viol         []Violation
 	failNext     [3]string
+	afterGate    bool
 	lostAck      [3]bool
 	writeSeq     int // write txns seen so far (sequential part of the history)
 	sched        *gate.Sched
@@ -311,6 +315,9 @@ func (w *world) install() {
 			}
 			return etcdfix.Proceed
 		}, func(ev *etcdfix.Event) {
+			if sc := w.sched; sc != nil && w.afterGate {
+				defer sc.Enter("after-"+ev.Method, fmt.Sprint(si))
+			}
 			if ev.Method != "Txn" {
 				return
 			}
@@ -391,8 +398,10 @@ func (w *world) recordGrant(m *mem, ts pdpb.Timestamp, count uint32, start, end 
 		switch {
 		case m.dead:
 			add("C01", "%s granted a timestamp after it crashed / lost its lease", who)
-		case !m.leader || !m.inited:
-			add("C01", "%s granted a timestamp although it does not hold an initialised leadership (leader=%v inited=%v)", who, m.leader, m.inited)
+		case !m.leader:
+			add("C01", "%s granted a timestamp although it does not hold the leadership", who)
+			// (a grant between a won campaign and the end of the allocator's initialisation is judged by the order and
+			// window clauses below only: the property does not forbid it as such)
 		case nowM > m.expire:
 			add("C01", "%s granted a timestamp although its lease expired locally %s ago", who, time.Duration(nowM-m.expire))
 		}
@@ -943,12 +952,26 @@ func (w *world) race(step int, op Op, m *mem) {
 	w.mu.Lock()
 	w.raceTxn, w.raceFailAt, w.raceFailKind = 0, op.FailAt, op.Fail
 	w.mu.Unlock()
+	w.afterGate = op.After
 	w.sched = sc
+	steppedDown := false
 	for i, t := range op.Tasks {
 		t := t
+		if t.K == "stepdown" {
+			steppedDown = true
+		}
 		sc.Go(i+1, func() {
 			switch t.K {
+			case "stepdown":
+				// what the leader loop does when it leaves campaignLeader after serving: the leadership is given
+				// up first (deferred last), the allocator group is reset afterwards
+				m.mb.ResetLeader()
+				m.am.ResetAllocatorGroup(tso.GlobalDCLocation)
 			case "update":
+				// the allocator daemon's tick: it looks at the leadership first
+				if m.am != nil && !m.mb.IsLeader() && steppedDown {
+					return
+				}
 				m.alloc.UpdateTSO()
 			case "settso":
 				w.mu.Lock()
@@ -973,7 +996,15 @@ func (w *world) race(step int, op Op, m *mem) {
 		ok = false
 	}
 	w.sched = nil
+	w.afterGate = false
 	w.base = atomic.LoadInt64(&clockNow)
+	if steppedDown {
+		if w.holder == m.idx && m.leader {
+			w.holder = -1
+		}
+		m.leader, m.inited = false, false
+		w.info.Class("race-with-stepdown")
+	}
 	if !ok {
 		w.info.Inconclusive = true
 		return
